@@ -1049,7 +1049,12 @@ def gen_array_pass(node, code, codegen):
         scope = 'g'  # global
     else:
         scope = 'l'  # local
-    code.add((f'pushref{scope}', var.full_name))
+    if var.type.is_dynamic_array:
+        # the variable's cell already holds a reference to the array
+        # (a run-time sized array or an array parameter); pass that on
+        code.add((f'read{scope}@', var.full_name))
+    else:
+        code.add((f'pushref{scope}', var.full_name))
 
 
 @QvmCodeGen.generator_for(expr.BinaryOp)
